@@ -356,7 +356,7 @@ theorem exNest2_ok : ModOK exNest2 6 where
     · simp only [exOuter2, exOuter, List.take, List.mem_cons, List.not_mem_nil, or_false] at hf
       rcases hf with rfl | rfl | rfl <;> rfl
     · simp only [exInner, List.mem_cons, List.not_mem_nil, or_false] at hf
-      rcases hf with rfl | rfl | rfl | rfl | rfl <;> rfl
+      rcases hf with rfl | rfl | rfl | rfl | rfl | rfl <;> rfl
     · simp only [exBits, List.mem_cons, List.not_mem_nil, or_false] at hf
       rcases hf with rfl | rfl | rfl <;> rfl
 
